@@ -72,9 +72,13 @@ Next ==
                 gone == {k \in 0..(N - 1) : \E i \in 1..Len(ev.panels) :
                            ev.panels[i].n = k /\ ev.panels[i].rserr = "nosavedlog" /\ r[k].st # NoState}
                 r2 == [k \in 0..(N - 1) |-> IF k \in gone THEN LSInit ELSE r[k]]
+                \* only the replicas that were looked at are settled (an import interrupted by a power loss is followed
+                \* by two observations: the importing replica, then the others)
+                seen == {ev.panels[i].n : i \in 1..Len(ev.panels)}
+                hard == [k \in 0..(N - 1) |-> IF k \in seen THEN [r2[k] EXCEPT !.soft = {}] ELSE r2[k]]
             IN /\ bad' = IF PanelsOK(ev.panels, s1, a1) THEN bad ELSE Flag(ev, BadPanels(ev.panels, s1, a1))
-               /\ st' = (IF PowerLoss(ev) THEN Hard(r2) ELSE r2)
-               /\ alt' = (IF PowerLoss(ev) THEN Hard(r2) ELSE r2)
+               /\ st' = (IF PowerLoss(ev) THEN hard ELSE r2)
+               /\ alt' = (IF PowerLoss(ev) THEN hard ELSE r2)
        [] ev.op = "SaveSnapshot" ->
             LET post == [st EXCEPT ![ev.n] = SaveSnapshotRec(@, ev.idx)] IN
             /\ st' = post /\ alt' = post
